@@ -57,6 +57,22 @@ PROP = {
             "facade on random pairs of orderings near the boundary (equal, one a prefix of the other either way, one key differing in "
             "column, direction or kind), must answer what Plan.satisfies answers (= the required ordering leads the delivered one, "
             "Thm.C06.ordering_satisfies_iff_prefix). "
+            "A twelfth of the pair cases are the family 'equi-joins where the operators' costs cross' (tag fam.window): two tables "
+            "without indexes of 11-14 narrow rows each, 5 x 21-37, 8 x 13-30, or 12-30 rows with a TEXT column of 290-400 bytes "
+            "(where, with statistics, nested loop, hash join and merge join cost about the same), NULL keys (a quarter of the "
+            "values) and duplicates on both sides, one or two column = column conjuncts, RIGHT / FULL in 80 % of the cases; the query "
+            "runs before ANALYZE (default statistics), after it and after a further INSERT, in the forms a, c, f, g against the "
+            "reference answer. Tags m.op.<Operator> count, over all forms of all queries, the chosen plans that hold the physical "
+            "operator (read from Database::explain at generation time); m.op-never-chosen.<Operator> is set when no chosen plan "
+            "of the whole run holds it — the cost model decides which operators the pair runs ever see, the jop cases below do not "
+            "depend on it. "
+            "Join operator cases (`jop <two tables> | <their join>`, 1 200 / 12 000 per run): two inputs of 0-8 rows (INT, BIGINT, "
+            "INT against BIGINT, TEXT key columns from 2-4 distinct values: duplicates; NULL keys on both sides in most cases), "
+            "every join kind, conditions that are one or two column = column conjuncts (70 %), the same plus a further conjunct, "
+            "theta, or absent: the join is handed to the implementation rules through the facade and EVERY physical operator they "
+            "offer (nested loop always; hash join and merge join over the Sort executors it requires for equi conditions) is run "
+            "directly on the two inputs — whatever the cost model would choose — and each must return the reference evaluator's "
+            "rows (tags jop.*). "
             "Every case is non-trivial; distinct = distinct case line.",
     "assumptions": [
         "indexed columns hold distinct non-NULL values (every index of the engine is a unique index; duplicates and NULLs in "
